@@ -9,7 +9,9 @@ import (
 	"golang.org/x/tools/go/ssa"
 )
 
-func init() { register("C14", "runs are isolated and repeatable; executing a tree never changes it", checkC14) }
+func init() {
+	register("C14", "runs are isolated and repeatable; executing a tree never changes it", checkC14)
+}
 
 // localForward resolves a load of base.field to the value stored into the same field earlier in the same block
 // (no call or other store to that field in between). Returns v unchanged when no such store exists.
